@@ -154,7 +154,46 @@ pub fn run(o: &Opts) {
       }
     }
   }
+  // ---- documents that host other languages: HTML pages with <script> / <style>, mixed with plain files, searched
+  //      with a JavaScript and with a CSS pattern: per-thread parser state must not leak from one file to the next
+  for (pt, l) in [("foo($A)", "js"), ("color: $C", "css")] {
+    let dir = fresh_dir(&o.out, &format!("html_{l}"));
+    let mut files: Vec<String> = vec![];
+    for i in 0..8 {
+      let rel = match i % 3 { 0 => format!("page{i}.html"), 1 => format!("a/page{i}.html"), _ => format!("a/b/page{i}.html") };
+      let body = format!("<html><head><style>p{i} {{ color: red; margin: {i}px; }}</style></head>\n<body><p>page {i} é日</p>\n<script>foo({i}); bar(foo({i}{i}));</script>\n<script>let v{i} = foo('x');</script></body></html>\n");
+      let p = dir.join(&rel);
+      std::fs::create_dir_all(p.parent().unwrap()).unwrap();
+      std::fs::write(&p, body).unwrap();
+      files.push(rel);
+    }
+    for (rel, body) in [("z.js", "foo(100);\n"), ("a/y.css", "q { color: blue; }\n"), ("a/b/x.ts", "foo(200)\n")] {
+      std::fs::write(dir.join(rel), body).unwrap();
+      files.push(rel.to_string());
+    }
+    let mut union: Vec<Key> = vec![];
+    for rel in &files {
+      let r = sg(&dir, &["run", "-p", pt, "-l", l, "--json=stream", rel], None, 60);
+      union.extend(json_lines(&r.stdout).unwrap_or_default().iter().map(rec_key));
+    }
+    union.sort();
+    out.count("tree:html-with-injections");
+    for j in &jobs {
+      let js = j.to_string();
+      let r = sg(&dir, &["run", "-p", pt, "-l", l, "--json=stream", "-j", &js, "."], None, 120);
+      out.checked();
+      let mut got: Vec<Key> = json_lines(&r.stdout).unwrap_or_default().iter().map(rec_key).collect();
+      got.sort();
+      if r.timed_out || got != union {
+        out.oracle_fail("", &format!("sg run -p {pt:?} -l {l} -j {j} on 8 HTML pages with embedded script/style plus plain files: {} records, the union of the files scanned alone has {}", got.len(), union.len()),
+          json!({"stream": "c17-html", "dir": dir.to_string_lossy()}));
+      }
+    }
+    if !union.is_empty() {
+      out.nontrivial(&(l.to_string(), pt.to_string(), files.len()));
+    }
+  }
   out.finish("directory trees of 12-20 files in nested directories, 0-5 of them made invalid (at least two not UTF-8 in every faulty tree) (empty, invalid UTF-8 in the middle / at the start, more than 3 MB and 200k lines), given as a single root: `sg run -p .. -j N` \
               for N in {1,2,4,16} (1..16 thorough) x repeated runs x the three JSON styles: the output must be well-formed and the sorted records must equal the union of the records of each file scanned alone (each file exactly once). \
-              As root in this sandbox a file cannot be made unreadable by mode bits: the unreadable case is covered by invalid content only. non-trivial = the pattern has matches");
+              Plus two trees of HTML pages hosting <script>/<style> mixed with plain files, searched with a JavaScript and a CSS pattern. As root in this sandbox a file cannot be made unreadable by mode bits: the unreadable case is covered by invalid content only. non-trivial = the pattern has matches");
 }
